@@ -327,7 +327,27 @@ func (e *Env) eval(x Expr) SVal {
 		if !n.Forall {
 			q = "exists"
 		}
-		return SVal{T: mk(SBool, fmt.Sprintf("(%s (%s) %s)", q, strings.Join(binds, " "), body.S))}
+		plain := fmt.Sprintf("(%s (%s) %s)", q, strings.Join(binds, " "), body.S)
+		if n.Forall && len(n.Vars) == 1 && !strings.Contains(body.S, ":pattern") {
+			// a statement about every element s[i] of some slices: besides the plain quantifier (left to the solver's own
+			// instantiation heuristics) state it once more with the element addresses as explicit triggers, so that
+			// knowing about a concrete element s[k] reliably instantiates it (z3 otherwise sometimes picks a
+			// trigger that never matches in large queries)
+			name := "q!" + sanitize(n.Vars[0].Name)
+			var pats []string
+			seen := map[string]bool{}
+			for _, args := range findApps(body.S, "sidx") {
+				if len(args) == 2 && args[1] == name && !strings.Contains(args[0], "q!") && !seen[args[0]] {
+					seen[args[0]] = true
+					pats = append(pats, fmt.Sprintf(":pattern ((sidx %s %s))", args[0], name))
+				}
+			}
+			if len(pats) > 0 && len(pats) <= 4 {
+				trig := fmt.Sprintf("(forall (%s) (! %s %s))", strings.Join(binds, " "), body.S, strings.Join(pats, " "))
+				return SVal{T: mk(SBool, "(and "+plain+" "+trig+")")}
+			}
+		}
+		return SVal{T: mk(SBool, plain)}
 	}
 	return e.errf("cannot evaluate %T", x)
 }
@@ -509,7 +529,7 @@ func (e *Env) evalIdx(n *EIdx) SVal {
 	}
 	switch u := x.Type.Underlying().(type) {
 	case *types.Slice:
-		en := c.elemName(c.sortOf(u.Elem()))
+		en := c.elemNameT(u.Elem())
 		return SVal{T: tSelect(tSelect(e.heap(e.cur, en), mk(SInt, "(s.arr "+x.T.S+")")), mk(SInt, fmt.Sprintf("(sidx %s %s)", x.T.S, i.T.S))), Type: u.Elem()}
 	case *types.Array:
 		return SVal{T: tSelect(x.T, i.T), Type: u.Elem()}
